@@ -34,7 +34,7 @@ Item = tuple  # ('a', text) | ('s', quote, body) | ('g', brackets, [items])
 # fragment grammar (the python twin of `Frag` in lean/Tranp/Model/Block.lean)
 
 
-def gen_items(rng: random.Random, depth: int, mode: str, width: int, delim_w: float = 0.3) -> list[Item]:
+def gen_items(rng: random.Random, depth: int, mode: str, width: int, delim_w: float = 0.3, exclude: str = '') -> list[Item]:
 	"""mode: 'clean' (string bodies free of brackets/quotes) | 'dirty' (brackets and the other quote inside strings)"""
 	items: list[Item] = []
 	for _ in range(rng.randint(0, width)):
@@ -45,19 +45,20 @@ def gen_items(rng: random.Random, depth: int, mode: str, width: int, delim_w: fl
 			d = rng.choice(DELIMS)
 			items.append(('a', d + (' ' if d != ' ' and rng.random() < 0.5 else '')))
 		elif r < 0.74:
-			items.append(gen_string(rng, mode))
+			items.append(gen_string(rng, mode, exclude))
 		elif r < 0.96 and depth > 0:
-			items.append(('g', rng.choice(BRACKETS), gen_items(rng, depth - 1, mode, max(1, width - 1), delim_w)))
+			items.append(('g', rng.choice(BRACKETS), gen_items(rng, depth - 1, mode, max(1, width - 1), delim_w, exclude)))
 		else:
 			items.append(('a', rng.choice(['.', '-', '*', '&', '+', '::', '\n', '\t', 'é'])))
 	return items
 
 
-def gen_string(rng: random.Random, mode: str) -> Item:
+def gen_string(rng: random.Random, mode: str, exclude: str = '') -> Item:
 	q = rng.choice(QUOTES)
 	alpha = 'ab1 ,:=.'
 	if mode == 'dirty' and rng.random() < 0.7:
 		alpha += '()[]{}<>' + ('"' if q == "'" else "'")
+		alpha = ''.join(c for c in alpha if c not in exclude)
 	return ('s', q, ''.join(rng.choice(alpha) for _ in range(rng.randint(0, 5))))
 
 
@@ -95,9 +96,9 @@ def strings_have(items: list[Item], chars: str) -> bool:
 	return False
 
 
-def gen_fragment(rng: random.Random, mode: str, i: int) -> list[Item]:
+def gen_fragment(rng: random.Random, mode: str, i: int, exclude: str = '') -> list[Item]:
 	depth = i % 6  # 0..5
-	return gen_items(rng, depth, mode, 2 + i % 5)
+	return gen_items(rng, depth, mode, 2 + i % 5, 0.3, exclude)
 
 
 def gen_malformed(rng: random.Random, i: int) -> str:
@@ -194,7 +195,36 @@ def entry_str(e: Any) -> str:
 	return f"({e.begin},{e.end},{e.depth},{kind}[{''.join(entry_str(x) for x in e.entries)}])"
 
 
+class _Timeout(BaseException):
+	pass
+
+
+def _on_alarm(*_: Any) -> None:
+	raise _Timeout()
+
+
+def guarded(fn: Any, *args: Any, seconds: float = 5.0) -> Any:
+	"""Run a real helper with a wall-clock guard: a loop that no longer terminates becomes the observable 'Timeout'."""
+	import signal
+	old = signal.signal(signal.SIGALRM, _on_alarm)
+	signal.setitimer(signal.ITIMER_REAL, seconds)
+	try:
+		return fn(*args)
+	except _Timeout:
+		raise TimeoutError('real helper did not return') from None
+	finally:
+		signal.setitimer(signal.ITIMER_REAL, 0)
+		signal.signal(signal.SIGALRM, old)
+
+
 def real_op(op: list[str]) -> str:
+	try:
+		return guarded(_real_op, op)
+	except TimeoutError:
+		return 'Timeout'
+
+
+def _real_op(op: list[str]) -> str:
 	from rogw.tranp.implements.cpp.view.cpp_view_helper import CppViewHelper
 	from rogw.tranp.view.helper.decorator import DecoratorHelper
 	B = _bp()
@@ -249,7 +279,7 @@ def other_tokens(brackets: str) -> str:
 def ops_for(rng: random.Random, text: str, malformed: bool) -> list[list[str]]:
 	ops: list[list[str]] = []
 	odd_delims = ['->', '::', ', ', 'aa', '', '==', ' =']
-	odd_brackets = ['', '(', '""', '(]', 'ab', '()x', "''"]
+	odd_brackets = ['', '(', '""', '(]', 'ab', "''", '<', '][']  # never longer than two characters: a third character is an end token that _parse cannot consume (no progress)
 	for d in DELIMS:
 		ops.append(['sep', text, d])
 	ops.append(['sep', text, rng.choice(odd_delims)])
@@ -398,7 +428,7 @@ def search_sep(ctx: Ctx) -> SearchResult:
 			res.cases += 1
 			seen.add(f'{d}{text}')
 			try:
-				pieces = B.break_separator(text, d)
+				pieces = guarded(B.break_separator, text, d)
 			except Exception as e:  # noqa: BLE001
 				res.findings.append(Finding(key='sep:exception', what=f'break_separator raises {exc_enum(e)} on a balanced fragment', replay={'text': text, 'delimiter': d}))
 				continue
@@ -416,7 +446,7 @@ def search_sep(ctx: Ctx) -> SearchResult:
 				k = 'dirty, fewer cuts than top-level delimiters (allowed by the statement)'
 			hist[k] = hist.get(k, 0) + 1
 		if i < 2:
-			res.samples.append({'text': text, 'pieces,': B.break_separator(text, ',')})
+			res.samples.append({'text': text, 'pieces,': real_op(['sep', text, ','])})
 	res.distinct = len(seen)
 	res.histogram = hist
 	return res
@@ -432,17 +462,15 @@ def search_last(ctx: Ctx) -> SearchResult:
 		b = BRACKETS[i % 4]
 		mode = 'clean' if i % 2 else 'dirty'
 		# strings may contain brackets of the other kinds and any quotes, not the kind that is extracted
-		while True:
-			pre = gen_fragment(rng, mode, i)
-			inner = gen_fragment(rng, mode, i + 2)
-			if not strings_have(pre, b) and not strings_have(inner, b):
-				break
+		pre = gen_fragment(rng, mode, i, exclude=b)
+		inner = gen_fragment(rng, mode, i + 2, exclude=b)
+		assert not strings_have(pre, b) and not strings_have(inner, b)
 		prefix, inside = render(pre), render(inner)
 		text = prefix + b[0] + inside + b[1]
 		res.cases += 1
 		seen.add(b + text)
 		try:
-			got: Any = B.break_last_block(text, b)
+			got: Any = guarded(B.break_last_block, text, b)
 		except Exception as e:  # noqa: BLE001
 			got = exc_enum(e)
 		if got != (prefix, inside):
@@ -453,7 +481,7 @@ def search_last(ctx: Ctx) -> SearchResult:
 		plain = ''.join(c for c in prefix if c not in b)
 		res.cases += 1
 		try:
-			got2: Any = B.break_last_block(plain, b)
+			got2: Any = guarded(B.break_last_block, plain, b)
 		except Exception as e:  # noqa: BLE001
 			got2 = exc_enum(e)
 		if got2 != 'IndexError':
@@ -469,7 +497,7 @@ def check_decorator(text: str, path: str, args: list[tuple[str | None, str]]) ->
 	from rogw.tranp.view.helper.decorator import DecoratorHelper
 	h = DecoratorHelper(text)
 	try:
-		got_path, got_args, got_join = h._parse(text)
+		got_path, got_args, got_join = guarded(h._parse, text)
 	except Exception as e:  # noqa: BLE001
 		return 'decorator:exception', f'DecoratorHelper({text!r}) raises {exc_enum(e)}'
 	join_args = text[len(path) + 1:-1]
@@ -538,7 +566,7 @@ def search_decorator(ctx: Ctx) -> SearchResult:
 def check_param(text: str, var_type: str, symbol: str, default: str | None) -> tuple[str, str] | None:
 	from rogw.tranp.implements.cpp.view.cpp_view_helper import CppViewHelper
 	try:
-		p = CppViewHelper.Param.parse(text)
+		p = guarded(CppViewHelper.Param.parse, text)
 	except Exception as e:  # noqa: BLE001
 		return 'param:exception', f'Param.parse({text!r}) raises {exc_enum(e)}'
 	got = (p.var_type, p.symbol, p.default_value)
@@ -591,7 +619,7 @@ def search_bracket(ctx: Ctx) -> SearchResult:
 		res.cases += 1
 		seen.add(text)
 		try:
-			got: Any = B.parse_bracket(text, b)
+			got: Any = guarded(B.parse_bracket, text, b)
 		except Exception as e:  # noqa: BLE001
 			got = exc_enum(e)
 		ok = isinstance(got, list) and len(got) > 0 and got[0] == b[0] + inner + b[1] and all(p[:1] == b[0] and p[-1:] == b[1] and balanced(p) for p in got)
